@@ -40,6 +40,11 @@ func (exec *Executor) compareItems(ctx context.Context, node ast.Node, left, rig
 	case int64, float64, json.Number:
 		switch right.(type) {
 		case int64, float64, json.Number:
+			if !isComparableNumber(left) || !isComparableNumber(right) {
+				// A number outside the range of float64, such as 1e400, has no
+				// value to compare.
+				return predUnknown, nil
+			}
 			cmp = compareNumeric(left, right)
 		default:
 			return predUnknown, nil
@@ -69,6 +74,18 @@ func (exec *Executor) compareItems(ctx context.Context, node ast.Node, left, rig
 	}
 
 	return applyCompare(op, cmp)
+}
+
+// isComparableNumber returns false if num is a json.Number that can be
+// parsed into neither an int64 nor a float64, and true for any other value.
+func isComparableNumber(num any) bool {
+	if num, ok := num.(json.Number); ok {
+		if _, err := num.Int64(); err != nil {
+			_, err = num.Float64()
+			return err == nil
+		}
+	}
+	return true
 }
 
 // compareBool compares two boolean values and returns 0, 1, or -1. Returns
